@@ -310,7 +310,7 @@ RULE = ("each request (plain QUERY, RD random, with or without an OPT advertisin
 CHECK = {
     "property": "C04",
     "props": "Props/C04.v",
-    "theorems": ["c04_tc_on_the_octets", "c04_clause_iv", "c04_endings_on_the_octets", "c04_only_optional_omitted_partial", "c04_glue_complete_partial", "c04_optional_only_partial", "c04_response_within_limit", "c04_tc_shape", "c04_limit_value", "c04_udp_response_size", "c04_udp_identical_when_fits_partial", "c04_writer_limit_monotone", "c04_oracle_tc_shape",
+    "theorems": ["c04_tc_on_the_octets", "c04_clause_iv", "c04_clause_iv_two_runs", "c04_endings_on_the_octets", "c04_only_optional_omitted_partial", "c04_glue_complete_partial", "c04_optional_only_partial", "c04_response_within_limit", "c04_tc_shape", "c04_limit_value", "c04_udp_response_size", "c04_udp_identical_when_fits_partial", "c04_writer_limit_monotone", "c04_oracle_tc_shape",
                  "c04_oracle_sizes_and_identity"],
     "allowed_axioms": [],
     "suites": [{
@@ -360,11 +360,10 @@ MANIFEST = {
                    "(owner at/below the owner of an authority record), so referral glue is never omitted: this also closes C05's gap between "
                    "the octet-level answer and `resolve`; c04_endings_on_the_octets + c04_clause_iv turn the premise into the decoded "
                    "bits: a response with TC clear and RCODE other than SERVFAIL is exactly one whose answering logic succeeded, "
-                   "hence it differs from the complete answer only by omitted additional records; and — clause (iii) for answers that end Ok — if the finished TCP message fits the UDP space the UDP "
+                   "hence it differs from the complete answer only by omitted additional records; c04_clause_iv_two_runs states it as the comparison of two runs: the same question over UDP and over TCP (any buffers, ids, EDNS states, limits), TCP never has TC, and if the UDP response is TC-clear and neither is SERVFAIL both differ from ONE complete answer only by omitted not-in-bailiwick additional records (equal answer and authority sections, all glue in both); and — clause (iii) for answers that end Ok — if the finished TCP message fits the UDP space the UDP "
                    "response is octet-identical (Writer limit-monotonicity + a relational lifting over the query model). PARTIAL: "
-                   "clause (iii) for answers ending in SERVFAIL after partial writes (false there: known finding C04-1) and the "
-                   "the literal two-run comparison of clause (iv) (the theorems above characterise each response against the idealised "
-                   "answer instead) are not theorems; they, and all clauses on the real octets, are decided on every run by the extracted relation pair_check "
+                   "clause (iii) for answers ending in SERVFAIL after partial writes (false there: known finding C04-1) "
+                   "is not a theorem; it, and all clauses on the real octets, are decided on every run by the extracted relation pair_check "
                    "on the real server's two responses to ~2.4k requests tuned to within +-40 octets of 512 and of random negotiated "
                    "sizes; both responses are also compared octet for octet with the model."),
     "level_note": ("Trusted: Coq kernel, extraction, fidelity of the hand-written models (octet-exact differential test on every run), "
